@@ -83,6 +83,8 @@ def date_core(rnd):
             cons["romy2"] = True
         return [I(y, "var", "rom", "roman"), I("%Om", "var", "rom", "roman"), I("%Od", "var", "rom", "roman")], cons
     if k < 66:
+        if rnd.random() < 0.25:
+            return [I("%Y"), I("%jth", "var", "ord", "ordinal")], cons
         return [I("%Y"), _padvar(rnd, rnd.choice(["%j", "%D"]), False)], cons
     if k < 80:
         g = rnd.choice(["%G", "%rY"])
